@@ -572,6 +572,18 @@ impl<'o> Explore<'o> {
                 let c = run_conv(op, t, a, items, itok, &s2);
                 self.out.stat("ctrl.undecoded-twin-reply");
                 self.visit(&c);
+                // … and by the same report / acknowledgement from each address that differs from the controller's in
+                // exactly one bit (an equality that packs fields into an integer may lose some of them)
+                if oks.iter().position(|x| x == s).map(|p| p < 6).unwrap_or(false) {
+                    for bit in 0..16u32 {
+                        let mut s3 = s.clone();
+                        let p: Vec<&str> = tok.split(',').collect();
+                        s3[k] = format!("{},{:04X},{}", p[0], a ^ (1u16 << bit), p[2]);
+                        let c = run_conv(op, t, a, items, itok, &s3);
+                        self.out.stat("ctrl.reply-from-address-one-bit-off");
+                        self.visit(&c);
+                    }
+                }
             }
         }
     }
@@ -1130,6 +1142,27 @@ pub fn c08(thorough: bool, rng: &mut Rng, out: &mut Out) {
                 let got = out.impls[i].clone();
                 out.fail(i, format!("C08 a list of {} pages ({} chunks, within the 16-bit chunk count) did not arrive: '{}'", n, n * sz / 16, &got[..got.len().min(100)]));
             }
+        }
+    }
+    // more pixel transfers to one sign than a 16-bit counter holds, with no reset in between (empty and one-page
+    // lists alternating): the last one arrives like the first
+    {
+        let ti = 5usize;
+        let (w, h) = TYPES[ti].dimensions();
+        let a = 0x0042u16;
+        let at = format!("{:04X},{}", a, ti);
+        let pg = format!("h:{}", to_hex(&small_page(1, w, h, rng)));
+        let n = if thorough { 70_000 } else { 66_000 };
+        let mut line = format!("e2e direct M,{:04X} | cfg,{},-", a, at);
+        for k in 0..n {
+            line.push_str(&format!(" snd,{},{}", at, if k % 2 == 0 { "-" } else { pg.as_str() }));
+        }
+        line.push_str(&format!(" snd,{},{}", at, pg));
+        let i = out.case(line, true);
+        out.stat("e2e.more-transfers-than-16-bits");
+        let o = out.impls[i].clone();
+        if o.contains("err") || o.contains("PANIC") || !o.contains(&format!("| 7/{}/1/", ti)) {
+            out.fail(i, format!("C08 after {} send_pages calls to one sign the last list did not arrive: …{}", n + 1, &o[o.len().saturating_sub(80)..]));
         }
     }
     let _ = Offset(0);
